@@ -221,7 +221,16 @@ class Connection(ExportImport):
         obj._p_jar = self
         if self._added_during_commit is not None:
             self._added_during_commit.append(obj)
-        self._register(obj)
+        try:
+            self._register(obj)
+        except:  # noqa: E722 do not use bare 'except'
+            # Joining the transaction failed (e.g. it is in the failed
+            # state): the object must not keep the oid and the jar.
+            if self._added_during_commit is not None:
+                self._added_during_commit.remove(obj)
+            del obj._p_jar
+            del obj._p_oid
+            raise
         # Add to _added after calling register(), so that _added
         # can be used as a test for whether the object has been
         # registered with the transaction.
